@@ -14,6 +14,9 @@ def cases(tier, seed):
             yield dict(name=name, op=op, seed=seed)
     yield dict(name="PiecewiseRegressor-bins", op="rows-unseen-buckets", seed=seed)
     yield dict(name="PiecewiseClassifier", op="rows-unseen-buckets", seed=seed)
+    # the decision path of the tree of classifiers (a per-row output too): deeper trees, so that sub-batches reach nodes of depth >= 2
+    for depth in (3, 4):
+        yield dict(name="DecisionTreeLogisticRegression", op="decision-path-rows", seed=seed, depth=depth)
 
 
 def close(a, b):
@@ -21,8 +24,34 @@ def close(a, b):
     return a.shape == b.shape and numpy.allclose(a, b, rtol=0, atol=1e-9, equal_nan=True)
 
 
+def check_decision_path(c):
+    from mlinsights.mlmodel import DecisionTreeLogisticRegression
+    rs = numpy.random.RandomState(c["seed"] + 11)
+    X = rs.randn(120, 2)
+    y = ((X[:, 0] * X[:, 1] > 0) ^ (X[:, 0] > 0.8)).astype(int)          # xor-like: the tree needs several levels
+    m = DecisionTreeLogisticRegression(max_depth=c["depth"], min_samples_leaf=3).fit(X, y)
+    Q = rs.randn(25, 2)
+    dense = lambda M: numpy.asarray(M.todense() if hasattr(M, "todense") else M)
+    full = dense(m.decision_path(Q))
+    if full.shape[0] != len(Q):
+        return dict(**{"class": "decision-path-shape"}, what="decision_path has %d rows for %d observations" % (full.shape[0], len(Q)))
+    perm = rs.permutation(len(Q))
+    if not numpy.array_equal(dense(m.decision_path(Q[perm])), full[perm]):
+        return dict(**{"class": "decision-path-permutation"}, what="decision_path of a permuted batch is not the permuted decision_path")
+    for r in range(len(Q)):
+        one = dense(m.decision_path(Q[r:r + 1]))
+        if not numpy.array_equal(one[0], full[r]):
+            return dict(**{"class": "decision-path-single-row"}, what="row %d alone: path %r, inside the batch %r" % (r, one[0].tolist(), full[r].tolist()))
+    for a_, b_ in ((3, 9), (10, 25), (0, 2)):
+        if not numpy.array_equal(dense(m.decision_path(Q[a_:b_])), full[a_:b_]):
+            return dict(**{"class": "decision-path-sub-batch"}, what="rows %d..%d alone give other paths than inside the batch" % (a_, b_))
+    return None
+
+
 def check(c):
     from mlinsights.mlmodel.sklearn_testing import clone_with_fitted_parameters
+    if c["op"] == "decision-path-rows":
+        return check_decision_path(c)
     factory, kind, _, method = EST.configs()[c["name"]]
     d = EST.datasets(2)
     X, y = EST.target(d, kind)
